@@ -165,6 +165,9 @@ impl Client<16> for Prio2 {
             .map_err(|e| VdafError::Other(Box::new(e)))?;
 
         let helper_seed = rng.random();
+        #[cfg(feature = "verif-hooks")]
+        let helper_seed =
+            crate::verif_hooks::prio2::shard_helper_seed_override().unwrap_or(helper_seed);
         let helper_prng = Prng::from_prio2_seed(&helper_seed);
         for (s1, d) in leader_data.iter_mut().zip(helper_prng) {
             *s1 -= d;
